@@ -45,8 +45,11 @@ func runNative(ld *loaded, id string, cases []ReplayCase) (map[int]nativeResult,
 			continue
 		}
 		pkgName := sp.Pkg.Name()
-		rel := strings.TrimPrefix(pkg, "0chain.net/")
-		pkgDir := filepath.Join(repoMod, rel)
+		rel := strings.TrimPrefix(strings.TrimPrefix(pkg, "0chain.net/"), "verifh/")
+		pkgDir := ld.dirs[pkg]
+		if pkgDir == "" {
+			pkgDir = filepath.Join(repoMod, rel)
+		}
 		// cases file
 		var sub []ReplayCase
 		for _, i := range idxs {
